@@ -64,9 +64,18 @@ def conv_pool_inferred(ctx, true_axis):
                                               ["padding", gen.hp(rng, ps)]]}
             in_shape = [c] + ns
             want = [c] + [true_axis(n, p, 1, k, s) for n, p, k, s in zip(ns, ps, ks, ss)]
-        g = chain_recipe([("in", {"type": "Input", "kwargs": [["input_type", gen.shape_arg(rng, in_shape, "input")]]}),
-                          ("x", rec),
-                          ("out", {"type": "Output", "kwargs": [["output_type", None]]})])
+        chain = [("in", {"type": "Input", "kwargs": [["input_type", gen.shape_arg(rng, in_shape, "input")]]}), ("x", rec)]
+        tail = None
+        if rng.random() < 0.45 and all(v > 0 for v in want):
+            # a consumer that derives its own shape from x's declared output (a Flatten left to inference, merging at
+            # least two axes): typing it must leave x's declared shapes as they are
+            a = rng.randrange(0, len(want) - 1); b = rng.randrange(a + 1, len(want))
+            tail = (a if rng.random() < 0.5 else a - len(want), b if rng.random() < 0.5 else b - len(want))
+            chain.append(("f", {"type": "Flatten", "kwargs": [["input_type", None], ["start_dim", gen.pyint(tail[0])],
+                                                                ["end_dim", gen.pyint(tail[1])]]}))
+            ctx.count("inferred_with_downstream_flatten")
+        chain.append(("out", {"type": "Output", "kwargs": [["output_type", None]]}))
+        g = chain_recipe(chain)
         case = {"op": "graph", "graph": g, "ops": ["infer"]}
         ctx.case(case); ctx.count("inferred_" + which)
         try:
@@ -75,6 +84,8 @@ def conv_pool_inferred(ctx, true_axis):
             got_in = _ints(graph.nodes["x"].input_type.get("input"))
             got = _ints(graph.nodes["x"].output_type.get("output"))
             o = {"in": got_in, "out": got}
+            if _ints(graph.nodes["in"].output_type.get("output")) != in_shape:
+                got_in = None; o["upstream"] = _ints(graph.nodes["in"].output_type.get("output"))
         except Exception as e:  # noqa
             got_in = got = None
             o = {"err": err_name(e)}
@@ -106,6 +117,10 @@ def flatten_inferred(ctx, ref_flatten):
             infer(graph)
             got = _ints(graph.nodes["f"].output_type.get("output"))
             o = {"out": got}
+            up = _ints(graph.nodes["in"].output_type.get("output")); own = _ints(graph.nodes["f"].input_type.get("input"))
+            if up != shp or own != shp:
+                # typing the Flatten must not disturb the shape it was typed from (nor its own input side)
+                got = None; o.update({"upstream_now": up, "flatten_input_now": own})
         except Exception as ex:  # noqa
             got, o = None, {"err": err_name(ex)}
         if got != want:
